@@ -7,7 +7,11 @@
      enc_table_map_body c t   what the master writes for table definition t (Spec/EncEvent.v)
      enc_ev c h body crc      the event with its header (any length >= 19) and optional CRC32
      expect_format c v        the format description the stream announced
-     expect_table_map t       the schema a consumer must obtain (Spec/Expect.v)
+     expect_table_map p t     the schema a consumer must obtain (Spec/Expect.v); p names the padding pattern of
+                              the nullable-columns bitmap (the decoded bitmap keeps the wire bytes; its
+                              meaningful bits and its width do not depend on p: C09_bitmap_bit)
+     c_pad_tm c               that pattern on the wire: an arbitrary byte (the unused high bits of the bitmap's
+                              last byte are whatever the master left there)
    wf_table_def (Proofs/TableMapProofs.v): id fits the 4/6-byte field, flags fit 2 bytes, names
    <= 255 bytes, column count and metadata length <= MaxInt32 (the decoder's own ErrTooLarge
    limits), every column type has valid parameters (wf_type).  td_optional is unconstrained. *)
@@ -21,7 +25,7 @@ Open Scope Z_scope.
 Theorem C15_tablemap_roundtrip : forall c v h t crc,
   wf_cfg c = true -> wf_table_def c t ->
   (do ev <- strip_checksum56 (expect_format c v) (enc_ev c h (enc_table_map_body c t) crc);
-   ev_table_map (expect_format c v) ev) = Ok (expect_table_map t).
+   ev_table_map (expect_format c v) ev) = Ok (expect_table_map (c_pad_tm c) t).
 Proof. exact tablemap_roundtrip. Qed.
 Print Assumptions C15_tablemap_roundtrip.
 
@@ -52,9 +56,10 @@ Theorem C15_metadata : forall ty pre rest, wf_type ty = true ->
 Proof. exact metadata_read_ok. Qed.
 Print Assumptions C15_metadata.
 
-(* ---- non-vacuity: a 300-column table (3-byte column count), 6-byte id, CRC on, 27-byte header,
-        optional metadata appended ---- *)
-Definition ex_cfg : cfg := {| c_crc := true; c_v2 := true; c_tid4 := false; c_hlen := 27; c_nsizes := 40 |}.
+(* ---- non-vacuity: a 300-column table (3-byte column count; 300 is not a multiple of 8 and the four unused
+        bits of the NULL bitmap's last byte are set), 6-byte id, CRC on, 27-byte header, optional metadata appended ---- *)
+Definition ex_cfg : cfg := {| c_crc := true; c_v2 := true; c_tid4 := false; c_hlen := 27; c_nsizes := 40;
+                              c_pad_cols := 0; c_pad_null := 255; c_pad_tm := 255 |}.
 Definition ex_types : list (coltype * bool) :=
   [(TLong, false); (TVarchar 300 false, true); (TNewDecimal 20 5, true); (TChar 1000, false); (TBit 12, true);
    (TEnum 2 false, false); (TBlob 3 250, true); (TDateTime2 6, false); (TJson 4, true); (TDouble, false)].
@@ -69,7 +74,11 @@ Example C15_300_columns :
   forallb (fun p => wf_type (fst p)) ex_cols300 = true /\
   firstn 3 (enc_lenenc (len ex_cols300)) = [252; 44; 1] /\
   (do ev <- strip_checksum56 (expect_format ex_cfg []) (enc_ev ex_cfg (ex_hdr 19) (enc_table_map_body ex_cfg ex_t300) [9; 9; 9; 9]);
-   ev_table_map (expect_format ex_cfg []) ev) = Ok (expect_table_map ex_t300) /\
+   ev_table_map (expect_format ex_cfg []) ev) = Ok (expect_table_map 255 ex_t300) /\
+  Z.shiftr (last (bm_data (tm_can_be_null (expect_table_map 255 ex_t300))) 0) 4 = 15 /\
+  Z.shiftr (last (bm_data (tm_can_be_null (expect_table_map 0 ex_t300))) 0) 4 = 0 /\
+  map (bit (tm_can_be_null (expect_table_map 255 ex_t300))) (seq 0 300) =
+    map (fun p => Ok (snd p)) ex_cols300 /\
   (do ev <- strip_checksum56 (expect_format ex_cfg []) (enc_ev ex_cfg (ex_hdr 19) (enc_table_map_body ex_cfg ex_t300) [9; 9; 9; 9]);
    ev_table_id (expect_format ex_cfg []) ev) = Ok (2 ^ 40 + 7).
 Proof. repeat match goal with |- _ /\ _ => split end; vm_compute; reflexivity. Qed.
